@@ -36,8 +36,8 @@ MUS = ('1', '2', '3/2')
 ALL_PAIRS = [(x, y) for x in MUS for y in MUS]
 QUICK_PAIRS = [('1', '1'), ('2', '1'), ('1', '3/2'), ('3/2', '2'), ('2', '2')]
 ROWS = [('0', '0'), ('1', '0'), ('0', '1'), ('1/2', '1/2')]
-# Ways of naming the two nest objects ('' = no name given: the library calls the nest 'nest_<position>').
-# The first one is the naming of the plain replay; 'clash': the default name of the second nest is the name given to the first.
+# Ways of naming the two nest objects ('' = no name given: the library gives a default name, 'nest_<position>' or the like).
+# The first one is the naming of the plain replay; 'clash': the first nest is given the name that is the usual default name of the second.
 NAMINGS = {'distinct': ('n0', 'n1'), 'unnamed': ('', ''), 'same': ('N', 'N'), 'clash': ('nest_2', '')}
 BASE_NAMING = 'distinct'
 NAMING_OF = {v: k for k, v in NAMINGS.items()}
@@ -72,7 +72,7 @@ def runs(tier: str, kinds=None) -> list[dict]:
         PrbXs=('-1', '0', '1/2') if q else ('-2', '-1', '0', '1/2', '1', '3'),
         PrbT1s=('-1/2', '1') if q else ('-1', '-1/2', '0', '1'),
         PrbDiffs=('0', '1/2', '2') if q else ('0', '1/2', '1', '2'))
-    add('nl', ['nl'], 6, LabelSeqs=[L2, L3, L4],
+    add('nl', ['nl'], 6, LabelSeqs=[L2, L3, L4], NlMuPairs=QUICK_PAIRS if q else ALL_PAIRS,
         AVecs=[(1, 2), (3, 4), (1, 2, 2), (3, 4, 1), (1, 2, 2, 4)] if q else
         _full(2) + [(1, 2, 2), (3, 4, 1), (2, 3, 1), (4, 4, 3), (1, 1, 1), (2, 2, 1), (4, 1, 4), (3, 3, 4), (2, 4, 4), (1, 3, 2)]
         + [(1, 2, 2, 4), (3, 4, 2, 1), (2, 1, 3, 3), (4, 4, 4, 1), (1, 1, 1, 1), (2, 4, 4, 3), (4, 3, 1, 2), (2, 2, 1, 4)])
@@ -210,6 +210,27 @@ def run_models(chk, tier: str, kinds=None, invariants=None, skip=()) -> dict:
         emitted[run['name']] = r.emitted
         r.raw = ''
     return emitted
+
+
+def together(jobs: dict) -> dict:
+    """Run the TLC jobs {name: callable} of the negative controls at the same time (one JVM each).  -> {name: result}"""
+    out: dict = {}
+
+    def go(name, fn):
+        try:
+            out[name] = fn()
+        except BaseException as e:  # noqa
+            out[name] = e
+
+    ths = [threading.Thread(target=go, args=kv) for kv in jobs.items()]
+    for t in ths:
+        t.start()
+    for t in ths:
+        t.join()
+    for name, r in out.items():
+        if isinstance(r, BaseException):
+            raise r
+    return out
 
 
 def run_mutant(run: dict, mutation: str, invariants) -> tlc.TlcResult:
@@ -510,8 +531,9 @@ def _obs_database(group, shifts=(), name='c05'):
 # (step, naming) evaluated for each model function written with nest objects.  At every step the model is BUILT
 # for every naming, so that each nests object has seen the earlier arguments before it is evaluated.
 PLANS = {
+    # (quick: the nests object of 'unnamed' is also the one evaluated at step 0 with availability None)
     'quick': dict(prob=[(1, 'unnamed'), (2, 'same'), (2, 'clash')], log=[(1, 'same'), (2, 'unnamed'), (1, 'clash')], log_pick=1,
-                  again=[(2, 'distinct')]),
+                  again=[]),
     'thorough': dict(prob=[(1, 'unnamed'), (1, 'clash'), (2, 'same'), (2, 'clash'), (2, 'unnamed')],
                      log=[(1, 'same'), (2, 'unnamed'), (2, 'clash')], log_pick=3, again=[(1, 'distinct'), (2, 'distinct')]),
 }
